@@ -23,7 +23,10 @@ def main():
     na = []
     for i in ids:
         c = src["checks"].get(i)
-        if c and os.path.exists(os.path.join(ROOT, "props", i + ".py")):
+        snip = os.path.join(ROOT, "props", i + ".manifest.json")
+        if os.path.exists(snip):
+            c = json.load(open(snip))
+        if c and i in src.get("ready", []) and os.path.exists(os.path.join(ROOT, "props", i + ".py")):
             checks.append({
                 "property_id": i,
                 "quick_cmd": "./check %s --tier quick" % i,
